@@ -105,21 +105,34 @@ func refactorFamily(c map[string]json.RawMessage) (interface{}, error) {
 		if str(c, "only") == "sites" {
 			return map[string]interface{}{"sites": sites}, nil
 		}
+		// a configuration with a second rule (one line per rule)
+		conf := oldName + " -> " + newName
+		var sites2 []interface{}
+		if old2, new2 := str(c, "old2"), str(c, "new2"); old2 != "" {
+			seg2 := strings.Split(old2, ".")
+			sites2 = renameSites(parsed, strings.Join(seg2[:len(seg2)-2], ".")+seg2[len(seg2)-2], seg2[len(seg2)-1], strip)
+			conf += "\n" + old2 + " -> " + new2
+		}
 		if cli {
-			conf := filepath.Join(work, "rename.txt")
-			if err := os.WriteFile(conf, []byte(oldName+" -> "+newName), 0644); err != nil {
+			confFile := filepath.Join(work, "rename.txt")
+			if err := os.WriteFile(confFile, []byte(conf), 0644); err != nil {
 				return nil, err
 			}
-			if _, err := cocaCli(work, "refactor", "-R", conf, "-d", filepath.Join(work, "coca_reporter", "deps.json")); err != nil {
+			if _, err := cocaCli(work, "refactor", "-R", confFile, "-d", filepath.Join(work, "coca_reporter", "deps.json")); err != nil {
 				return nil, err
 			}
 		} else {
 			app := renameapp.RenameMethodApp(parsed)
-			app.Refactoring(oldName + " -> " + newName)
+			app.Refactoring(conf)
 		}
 		files := readTree(dir)
 		after := analyse(dir)
-		return map[string]interface{}{"sites": sites, "files": files, "before": nodesJ(parsed, strip), "after": nodesJ(after, strip)}, nil
+		res := map[string]interface{}{"sites": sites, "files": files, "before": nodesJ(parsed, strip), "after": nodesJ(after, strip)}
+		if sites2 != nil {
+			res["sites2"] = sites2
+			res["unmodelled"] = true // the rewrite model takes one rule: a two-rule configuration is judged by the oracle
+		}
+		return res, nil
 	case "unused":
 		// front-end output per file (what BuildErrorLines reads), taken right after each file's walk
 		front := []interface{}{}
